@@ -27,6 +27,7 @@ var checks = map[string]func(*ev.Ctx){
 	"C14": props.C14,
 	"C15": props.C15,
 	"C16": props.C16,
+	"C17": props.C17,
 	"C20": props.C20,
 }
 
